@@ -259,7 +259,7 @@ let print_views (out : Buffer.t) ek m (st : state) (s : (bytes, 'u) sys) (prev :
   now
 
 (* ---------- running ---------- *)
-let uint_k = function "u8" -> Some 0 | "u16" -> Some 1 | "u32" -> Some 2 | "u64" | "fu64" -> Some 3
+let uint_k = function "u8" -> Some 0 | "u16" | "bu16" -> Some 1 | "u32" -> Some 2 | "u64" | "fu64" -> Some 3
   | "u128" -> Some 4 | "u256" -> Some 5 | _ -> None
 
 let ekind_of (kind : string) : bytes ekind option =
